@@ -109,4 +109,4 @@ extern "C" const char *__asan_default_options() {
            "allocator_may_return_null=1:detect_odr_violation=0:handle_abort=0";
 }
 extern "C" const char *__ubsan_default_options() { return "print_stacktrace=0:halt_on_error=1"; }
-extern "C" const char *__lsan_default_options() { return "print_suppressions=0:exitcode=0"; }
+extern "C" const char *__lsan_default_options() { return "print_suppressions=0"; }
